@@ -48,6 +48,7 @@ type CompSpec struct {
 	NoSort   bool   `json:"nosort"`   // keep the given order
 	ListTags bool   `json:"listtags"` // DisplayList()
 	ByWord   bool   `json:"byword"`   // only offer candidates that have the current word as prefix
+	Reuse    bool   `json:"reuse"`    // the application hands out the SAME prebuilt slice of candidates on every call
 }
 
 type BindSpec struct {
@@ -394,7 +395,22 @@ func runCase(cs *Case, ci int, pty *ptyPair, em *emu, home string) (alive bool) 
 	}
 	if cs.Comp != nil {
 		cp := cs.Comp
+		var prebuilt []readline.Completion
+		for _, c := range cp.Cands {
+			d := c.Disp
+			if d == "" {
+				d = c.V
+			}
+			prebuilt = append(prebuilt, readline.Completion{Value: c.V, Display: d, Description: c.Desc, Tag: c.Tag})
+		}
 		rl.Completer = func(line []rune, cursor int) readline.Completions {
+			if cp.Reuse {
+				comps := readline.CompleteRaw(prebuilt)
+				if cp.NoSort {
+					comps = comps.NoSort()
+				}
+				return comps
+			}
 			word := ""
 			if cp.ByWord {
 				i := cursor
